@@ -149,6 +149,7 @@ def run(spec, opts=None, kw=None, init_budget=400_000, stepping=None, keep_model
                 res.tables = tuple(np.asarray(getattr(x, "values", x), dtype=float)
                                    for x in (out.water_flux, out.water_storage, out.crop_growth))
                 res.summary = out.final_stats
+                reconcile_tables(res)
                 if tr.o["digests"] or tr.o["protect"]:
                     tr.wdig.append(("end", I.weather_digest(model._weather)))
             except I.HarnessTimeout as ex:
@@ -166,6 +167,33 @@ def run(spec, opts=None, kw=None, init_budget=400_000, stepping=None, keep_model
         if not keep_model:
             pass
     return res
+
+
+def reconcile_tables(res):
+    """The row monitors must judge what the user is handed by the getters.  The step tap copied
+    each row right after the step; replace it by the row of the final table (keeping the tapped
+    copy) and count the rows that differ - a post-processing step that rewrites outputs is then
+    seen by every row monitor instead of by none."""
+    tr = res.trace
+    flux, stor, growth = res.tables
+    n = 0
+    first = None
+    for s in tr.steps:
+        t = s["t"]
+        if t >= len(flux):
+            continue
+        for key, tab in (("flux", flux), ("stor_row", stor), ("growth", growth)):
+            a, b = s[key], tab[t]
+            if a.shape != b.shape or not np.array_equal(a, b, equal_nan=True):
+                n += 1
+                if first is None:
+                    j = int(np.argmax(~((a == b) | (np.isnan(a) & np.isnan(b))))) if a.shape == b.shape else -1
+                    first = dict(t=t, table=key, col=j, step_value=float(a[j]) if j >= 0 else None,
+                                 reported=float(b[j]) if j >= 0 else None)
+                s[key + "_tap"] = a
+                s[key] = np.array(b, dtype=float)
+    tr.table_mismatch = n
+    tr.table_mismatch_first = first
 
 
 def tables_digest(res):
